@@ -69,10 +69,10 @@ ACTIONS = [
    ("negDelivery", "(negDelivery \\/ (nonneg /\\ v <= 0))"),
    ("lateDelivery", "(lateDelivery \\/ quiesced)"),
    ("unflushed", "TRUE"), RC], []),
- ("ObsUpdateCall", "id, v, inert", "Gauge.Update(v) has been called (inert: on a scope obtained after the root's Close - nothing is promised for it)",
-  [("updc", "IF inert THEN updc ELSE Put(updc, id, Append(GetSeq(updc, id), v))")], []),
- ("ObsUpdateReturn", "id, inert", "Gauge.Update has returned",
-  [("upd", "IF inert THEN upd ELSE Put(upd, id, Get(upd, id) + 1)")], []),
+ ("ObsUpdateCall", "id, v, inert, o", "Gauge.Update(v) has been called through a handle obtained from scope object o (inert: on a scope obtained after the root's Close; a handle of a scope object that has been closed is a stale handle - nothing is promised for either)",
+  [("updc", "IF inert \\/ o \\in objClosed THEN updc ELSE Put(updc, id, Append(GetSeq(updc, id), v))")], []),
+ ("ObsUpdateReturn", "id, inert, o", "Gauge.Update has returned",
+  [("upd", "IF inert \\/ o \\in objClosed THEN upd ELSE Put(upd, id, Get(upd, id) + 1)")], []),
  ("ObsDeliverGauge", "id, v, own", "the reporter received a gauge value",
   [("gdl", "Put(gdl, id, Append(GetSeq(gdl, id), v))"), ("unflushed", "TRUE"), RC], []),
  ("ObsPassBegin", "p", "report pass p begins; due[g] = number of updates of g if every Update that began has returned, else -1",
